@@ -13,7 +13,7 @@ From Coq Require Import List Ascii ZArith Bool.
 From CGV Require Import Base.PyBase Base.PyVal Base.NxGraph Gen.WriterGen Dialect.DialectImpl Write.WriteImpl Write.FragDefs
      Write.FragCheck Write.FormatBondingSpec.
 From CGV Require Import Frag.NDict Frag.StripImpl Frag.FragText Write.FormatStripRound.
-From CGV Require Import Write.WriteProofs Write.PathRound Write.FragRead Write.CoarseChain Write.CoarseFrags Write.CoarseGraph Reader.Grammar Reader.ReaderImpl.
+From CGV Require Import Write.WriteProofs Write.PathRound Write.FragRead Write.CoarseChain Write.CoarseFrags Write.CoarseGraph Write.CoarseTrack Reader.Grammar Reader.ReaderImpl.
 From CGV Require Import Write.WriteDefs Write.TreeDefs Write.TreeRound Write.RingRound Write.FullMachine Write.FullRound Write.FullDomain Reader.Lin.
 Import ListNotations.
 Open Scope Z_scope.
@@ -145,6 +145,28 @@ Theorem C08_coarse_graph_roundtrip : forall fo a0 dh F (D : Z -> list dspec) g t
        /\ graph_iso (fun k => base_attrs (name_of g k)) g h
        /\ read_coarse_fragment fo F txt = Ok (post_fragment F h (ddict 0 dl []) (adict a0 0 dl []))).
 Proof. exact coarse_graph_roundtrip. Qed.
+(** the same with the side condition stated on the DFS tree only: no bond symbol on an edge to a child that is
+    written as a branch ([nosymb]: every child but the first-listed one is joined to its parent by a single bond; the
+    chain child, ring-closing edges and all other edges may have any order 0..4).  Everything else [dl_wf] asks
+    (balanced parentheses, names and ring markers in the strip grammar's form, no symbol behind a closing item ...)
+    is proved to hold for the writer's item list ([ltrack_tree], [dl_wf_track]). *)
+Theorem C08_coarse_graph_roundtrip_tree : forall fo a0 dh F (D : Z -> list dspec) g tr,
+  fragment_node_parser fo [] = Ok a0 ->
+  wf_C07 g = true -> (forall n, In n g -> aget (S "aromatic") (na n) = None) ->
+  ring_contract g (dfs_tree g) tr = true ->
+  (forall k, forallb d_ok (D k) = true) ->
+  exists T, NoDup (rkeys T) /\ (forall x, In x (rkeys T) <-> In x (node_keys g)) /\
+    let items := the_items (name_of g) (esym_of g) (rsym_of g tr) T tr in
+    let dl := combine items (map D (worder T)) in
+    (nosymb (esym_of g) T ->
+     exists txt h, write_graph_by (S "atomname") false dh (decorate_graph F D g) tr = Ok txt
+       /\ strip_bonding_descriptors fo txt = Ok (lins_str items, ddict 0 dl [], [], adict a0 0 dl [])
+       /\ read_cgsmiles fo (lins_str items) = Ok h
+       /\ graph_iso (fun k => base_attrs (name_of g k)) g h
+       /\ read_coarse_fragment fo F txt = Ok (post_fragment F h (ddict 0 dl []) (adict a0 0 dl []))).
+Proof. exact coarse_graph_roundtrip_tree. Qed.
+Example C08_coarse_graph_nosymb_nonvacuous : nosymb (esym_of ex_cg) ex_cT.
+Proof. exact coarse_graph_example_nosymb. Qed.
 (** non-vacuity: a fragment with a branch, a ring closed by a double bond, a double bond on the chain, descriptors of
     three kinds and of orders 1, 2, 0: hypotheses hold, the text, and what is read back *)
 Example C08_coarse_graph_nonvacuous :
@@ -185,4 +207,5 @@ Print Assumptions C08_write_coarse_fragments.
 Print Assumptions C08_split_coarse_fragments.
 Print Assumptions C08_coarse_fragments_roundtrip.
 Print Assumptions C08_coarse_graph_roundtrip.
+Print Assumptions C08_coarse_graph_roundtrip_tree.
 Print Assumptions C08_descriptors_on_atom0.
